@@ -214,7 +214,17 @@ pub fn cap_run(case: &Case, deadline: bool, sched: Sched) -> Result<CapOut, Stri
                         finish!(cfg.diff_slices(&o, &n))
                     }
                 } else if case.flavour == 2 {
-                    let (ob, nb) = (ot.as_bytes(), nt.as_bytes());
+                    // half of the byte texts carry ill-formed UTF-8
+                    let (ob, nb) = if case.script_seed & 1 == 1 {
+                        let mut r = Rng::new(case.script_seed);
+                        (
+                            crate::gen::splice_ill_formed(&mut r, ot.as_bytes()),
+                            crate::gen::splice_ill_formed(&mut r, nt.as_bytes()),
+                        )
+                    } else {
+                        (ot.as_bytes().to_vec(), nt.as_bytes().to_vec())
+                    };
+                    let (ob, nb) = (&ob[..], &nb[..]);
                     match case.entry {
                         CapEntry::TextLines => finish!(cfg.diff_lines(ob, nb)),
                         CapEntry::TextWords => finish!(cfg.diff_words(ob, nb)),
